@@ -94,3 +94,57 @@ Theorem null_row_marker gk vals ng mask i (o0 : O) k r :
 Proof. intros H Hk. unfold run. eapply kscan_nth_null; eauto. Qed.
 
 End Generic.
+
+(* ---- the same statement with the kernel re-run on the data without the null-key rows ---- *)
+Lemma filter_by_nil {A} (l : list A) : filter_by [] l = [].
+Proof. unfold filter_by. destruct l; reflexivity. Qed.
+
+Lemma mk_rows_drop_null_some {A} (gk : list Z) : forall (vals : list A) (m : list bool),
+  length vals = length gk -> length m = length gk ->
+  filter (fun r : Z * (A * bool) => 0 <=? fst r) (combine gk (combine vals m))
+  = combine (filter_by (nonnull_key gk) gk) (combine (filter_by (nonnull_key gk) vals) (filter_by (nonnull_key gk) m)).
+Proof.
+  unfold filter_by, nonnull_key.
+  induction gk as [|k gk IH]; intros [|v vals] [|b m] Hv Hm; simpl in *; try lia; auto.
+  destruct (0 <=? k); simpl; [f_equal|]; apply IH; lia.
+Qed.
+
+Lemma filter_by_repeat_true (bs : list bool) : filter_by bs (repeat true (length bs)) = repeat true (length (filter_by bs bs)).
+Proof.
+  unfold filter_by. induction bs as [|b bs IH]; simpl; auto.
+  destruct b; simpl; [f_equal|]; apply IH.
+Qed.
+
+Lemma filter_by_self_length {A} (bs : list bool) (l : list A) :
+  length l = length bs -> length (filter_by bs l) = length (filter_by bs bs).
+Proof. intros H. apply filter_by_length; auto. Qed.
+
+Definition drop_null_mask (gk : list Z) (mask : option (list bool)) : option (list bool) :=
+  option_map (filter_by (nonnull_key gk)) mask.
+
+Lemma mk_rows_drop_null {A} (gk : list Z) (vals : list A) mask :
+  length vals = length gk -> length (mask_list (length gk) mask) = length gk ->
+  filter (fun r : Z * (A * bool) => 0 <=? fst r) (mk_rows gk vals mask)
+  = mk_rows (filter_by (nonnull_key gk) gk) (filter_by (nonnull_key gk) vals) (drop_null_mask gk mask).
+Proof.
+  intros Hv Hm. unfold mk_rows. rewrite mk_rows_drop_null_some by auto.
+  f_equal. f_equal. destruct mask as [m|]; simpl; auto.
+  assert (Hn : length (nonnull_key gk) = length gk) by (unfold nonnull_key; now rewrite map_length).
+  rewrite <- Hn at 1. rewrite filter_by_repeat_true.
+  f_equal. symmetry. apply filter_by_self_length. lia.
+Qed.
+
+Section Generic2.
+Variables (St A O : Type).
+Variable d : St.
+Variable sstep : St -> A * bool -> St * O.
+Variable skip : O.
+
+Theorem null_rows_deleted gk vals ng mask :
+  length vals = length gk -> length (mask_list (length gk) mask) = length gk ->
+  filter_by (nonnull_key gk) (run St A O d sstep skip gk vals ng mask)
+  = run St A O d sstep skip (filter_by (nonnull_key gk) gk) (filter_by (nonnull_key gk) vals) ng (drop_null_mask gk mask).
+Proof.
+  intros Hv Hm. rewrite null_rows_irrelevant by auto. unfold run. now rewrite mk_rows_drop_null.
+Qed.
+End Generic2.
